@@ -97,6 +97,11 @@ INC_FILES = {
 INC_FAULTS = [
     ("include-arity", "too-few-modes", 'include "sub2.xbb"', "Sub2 | 1\n"),
     ("include-arity", "too-many-modes", 'include "sub2.xbb"', "Sub2 | [1, 2, 3]\n"),
+    # the count that matters is the number of modes WRITTEN, not of distinct modes (seeded C11/k)
+    ("include-arity", "too-many-modes-repeated", 'include "sub2.xbb"', "Sub2 | [2, 1, 2]\n"),
+    ("include-arity", "too-many-modes-repeated-adjacent", 'include "sub2.xbb"', "Sub2 | [1, 1, 2]\n"),
+    ("include-arity", "too-many-modes-all-equal", 'include "sub2.xbb"', "Sub2 | [3, 3, 3, 3]\n"),
+    ("include-arity", "template-too-many-modes-repeated", 'include "tmpl.xbb"', "Tmpl(a=1, b=2) | [0, 1, 0]\n"),
     ("include-keywords", "arguments-for-non-template", 'include "sub2.xbb"', "Sub2(a=1) | [1, 2]\n"),
     ("include-keywords", "empty-arguments-for-non-template", 'include "sub2.xbb"', "Sub2() | [1, 2]\n"),
     ("include-keywords", "missing-arguments", 'include "tmpl.xbb"', "Tmpl | [1, 2]\n"),
